@@ -56,6 +56,12 @@ class Hooks(W.Hooks):
                             any(c1 is c2 for c1 in e.obj.cols() for c2 in r.obj.cols()):
                         return ctx.fail(f"{si.kind}/{si.op}/result-shares-column-objects",
                                         f"step {step}: the result of {si.op} holds a column object of entry {e.id}")
+        # rows the program read by indexing (t[i]) and kept: they show what the table held when they were taken
+        for rid, row, was, tid in world.rows:
+            now = tuple(W.freeze(x) for x in row)
+            if now != was:
+                return ctx.fail(f"{si.kind}/{si.op}/held-row-changed",
+                                f"step {step}: a row taken earlier by indexing table entry {tid} showed {was}, now shows {now}")
         allowed = set(si.may_change) if si.kind in ("write", "rename") else set()
         if si.kind in ("write", "rename"):
             tgt = world.by_id(si.info.get("target"))
